@@ -278,10 +278,16 @@ func relationsCase(t *mon.T, c dec.Ctx) {
 			report("sub-differs-from-add-neg", "sub", x, y, a, b, "Sub(x,y) != Add(x,-y)")
 		}
 	case 2: // mirror
-		op := []string{"add", "sub", "round", "quantize", "rtie"}[r.Intn(5)]
+		op := []string{"add", "sub", "round", "quantize", "rtie", "mul", "quo"}[r.Intn(7)]
 		var x, y dec.D
 		var aux int64
 		switch op {
+		case "mul", "quo":
+			x, y = gen.Pair(r, c, op)
+			if op == "quo" && y.IsZero() {
+				t.Skip("division-by-zero")
+				return
+			}
 		case "add", "sub":
 			x, y = gen.Pair(r, c, op)
 		case "round":
@@ -292,8 +298,8 @@ func relationsCase(t *mon.T, c dec.Ctx) {
 			x = integralOperand(r, c)
 		}
 		ny := y
-		if y.C != nil {
-			ny = y.Negate()
+		if y.C != nil && op != "mul" && op != "quo" {
+			ny = y.Negate() // for mul/quo negating one operand negates the exact result
 		}
 		a, b := callMode(op, c, m, x, y, aux), callMode(op, c, mirrorMode(m), x.Negate(), ny, aux)
 		t.EvalN(2)
